@@ -21,6 +21,41 @@ CLAIMED = {
         technique="TLA+ Lookups.tla (Window, Filter, Page) as oracle; seeded/full product of methods x arguments x windows x filters x paging recorded from the real store and validated by TLC; Page lemmas model-checked",
         text="For several graph contents a seeded sample (quick) or large product (thorough) of method x arguments x time window (incl. equal/inverted/one-sided) x filter operation/field x LatestAnchor x (MaxElements, Offset) is executed; unpaged results are judged as bags against Window/Filter of the model, pages against the recorded unpaged sequence of the same call; determinism by issuing each unpaged call twice.",
         note="LatestAnchor combined with a window and requests the driver may reject are left open (counted). Trusted: TLC, harness/uni."),
+    "C03": dict(
+        cat="model_checking", ref="DESIGN 5/C03, Appendix A",
+        technique="TLA+ BQLSemantics.tla (Match/Solutions set comprehension) as executable oracle: generated SELECT statements executed through the real lexer/parser/planner, every result validated row by row by TLC (QueryTrace.tla)",
+        text="Thousands (quick) to 150k (thorough) generated SELECTs of the conjunctive fragment - constants/bindings in every position, repeated bindings, anchor bindings, bounds, AS/ID/TYPE/AT aliases, 1-4 clauses, 1-3 FROM graphs (disjoint and overlapping), global time bounds, other-zone spellings - are run on the real engine over contents drawn from a 31-triple near-miss universe; TLC recomputes the solution bag and compares cell by cell (multiplicity open only where the property leaves it open). Rejected cases are re-evaluated under named Layer B deviations to attribute them to known findings.",
+        note="Trusted: TLC, lib/bqlgen.py rendering (cross-checked against the parsed pattern dumped by the driver), harness/bqlu projection by accessors. Random generation seeded by VERIF_SEED, not exhaustive."),
+    "C10": dict(
+        cat="model_checking", ref="DESIGN 5/C10",
+        technique="same oracle (BQLSemantics.tla Step with OPTIONAL as left outer join) on generated patterns with 1-2 OPTIONAL clauses in any position after the first; TLC trace validation",
+        text="Generated patterns mandatory;OPTIONAL[;OPTIONAL] with the optional clause sharing 0..n bindings, fully specified with/without alias, matching nothing/some/all rows, extractions that cannot apply; TLC checks that every preceding solution appears once per compatible match or once NULL-extended.",
+        note="Patterns where an OPTIONAL clause shares a binding only introduced by an earlier OPTIONAL clause are counted as open, not judged."),
+    "C11": dict(
+        cat="model_checking", ref="DESIGN 5/C11",
+        technique="TLA+ Group/AggRow operators (BQLSemantics.tla) applied by TLC to the RECORDED ungrouped rows of the same pattern and compared with the recorded grouped rows",
+        text="For generated patterns and every choice of 1-2 grouping bindings and 1-3 aggregates (count, count distinct, sum) the grouped query and its ungrouped base are both executed; TLC requires exactly one row per distinct key combination (mixed kinds in key columns included) with the right count / distinct count / sum, and an empty result for an empty base.",
+        note="Sums are judged only for columns of one numeric kind (quarters, |v|<2^30: TLC has 32-bit integers and no floats)."),
+    "C12": dict(
+        cat="model_checking", ref="DESIGN 5/C12",
+        technique="TLA+ Sorted/Permutation/TopN operators evaluated by TLC on recorded plain, ordered and limited results of the same query; rank tables of printed forms and instants computed independently in lib/bqlu.py",
+        text="Generated queries (incl. GROUP BY outputs) are run plain, with ORDER BY (1-3 keys, ASC/DESC, repeated keys) twice, and with LIMIT 0..50; TLC checks permutation, sortedness by kind (numeric, chronological incl. other zones and sub-second precision, printed form), first-min(n,N)-rows, determinism for total orders; statements with a negative / non-int64 LIMIT must be rejected.",
+        note="Key columns holding several kinds are not judged. Literal type names in upper case are left to C08/C16."),
+    "C13": dict(
+        cat="model_checking", ref="DESIGN 5/C13",
+        technique="TLA+ Eval over the grammar's own expression tree (BQLSemantics.tla) applied by TLC to the recorded rows without HAVING and compared with the recorded rows with it",
+        text="Random expression trees (NOT / AND / OR / parentheses, depth <= 3) over comparisons of bindings with int64, float64, text, bool, node, predicate, time constants (other zones) and other bindings, also over aggregate outputs; TLC requires exactly the rows for which the expression is true, unchanged.",
+        note="< and > on nodes/predicates/bools, and binding-vs-binding of different kinds, are not judged; statements rejected by the parser/expression builder are not judged."),
+    "C14": dict(
+        cat="model_checking", ref="DESIGN 5/C14",
+        technique="metamorphic relations asserted by TLC (bag equality / inclusion / identical sequence) between REAL results of variants of one query: renaming, clause permutation, data partition over 1-3 graphs, supersets of the data, chanSize/bulkSize/GOMAXPROCS, repetition",
+        text="For each generated base query ~10 variants are executed and TLC checks the relation the property states; no reference to the solutions oracle, so C03 findings cannot leak in unless they are order- or configuration-dependent.",
+        note="Base queries come from the fragment without OPTIONAL/FILTER/LIMIT/aggregates."),
+    "C04": dict(
+        cat="model_checking", ref="DESIGN 5/C04",
+        technique="TLA+ Statements.tla (effect of INSERT/DELETE/CREATE/DROP/CONSTRUCT/DECONSTRUCT incl. reification with fresh blank nodes) ; sequences of statements executed as text on one live store; full listing of every graph after each statement validated by TLC (StatementTrace.tla)",
+        text="60 (quick) / 1500 (thorough) seeded sequences of 10-12 statements over 3 graphs + an unknown name; after every statement the complete listing of all graphs is recorded structurally and TLC checks it equals the previous listing transformed by the statement: targets exactly +/- the listed or instantiated triples (templates x solution rows via the Solutions oracle), fresh blank node per reified row modulo renaming, non-targets untouched, rejected statements change nothing.",
+        note="Reification templates write only into ?g3, which is never a FROM graph. A statement failing during execution may leave targets either way."),
 }
 
 PENDING_REASON = "not claimed yet: the TLA+ module and conformance driver for this property are designed (DESIGN 5) but not built/validated in this commit"
